@@ -6,6 +6,8 @@ package PKG
 
 import "strings"
 
+//@ use strings
+
 // joinS: elems joined by sep (the definition in the strings.Join documentation).
 func joinS(elems []string, sep string) string {
 	if len(elems) == 0 {
